@@ -40,6 +40,10 @@ def _free_names(fn_node) -> Set[str]:
     for n in ast.walk(fn_node):
         if isinstance(n, ast.Name) and isinstance(n.ctx, ast.Store):
             bound.add(n.id)
+        elif isinstance(n, ast.ExceptHandler) and n.name:
+            bound.add(n.name)  # `except E as name` binds name
+        elif isinstance(n, (ast.FunctionDef, ast.ClassDef)) and n is not fn_node:
+            bound.add(n.name)
     return {n.id for n in ast.walk(fn_node) if isinstance(n, ast.Name) and isinstance(n.ctx, ast.Load) and n.id not in bound}
 
 
